@@ -704,31 +704,30 @@ fn decode<'a>(codec: &Codec, sections: &[&'a dyn Data<'a>]) -> BoxedData<'a> {
                     unsafe { std::mem::transmute::<&[u8], &[u8]>(dict_data.cast_ref_u8()) };
                 let string_ranges = section_stack.pop().unwrap();
                 let string_ranges = string_ranges.cast_ref_u64();
+                let index_section = section_stack.pop().unwrap();
+                // the indices of a string column with NULLs are a nullable section: keep its null map
+                let index_null_map = if index_section.get_type().is_nullable() {
+                    Some(index_section.cast_ref_null_map().to_vec())
+                } else {
+                    None
+                };
                 let indices: Vec<usize> = match encoding_type {
-                    EncodingType::U8 => section_stack
-                        .pop()
-                        .unwrap()
+                    EncodingType::U8 => index_section
                         .cast_ref_u8()
                         .iter()
                         .map(|i| *i as usize)
                         .collect(),
-                    EncodingType::U16 => section_stack
-                        .pop()
-                        .unwrap()
+                    EncodingType::U16 => index_section
                         .cast_ref_u16()
                         .iter()
                         .map(|i| *i as usize)
                         .collect(),
-                    EncodingType::U32 => section_stack
-                        .pop()
-                        .unwrap()
+                    EncodingType::U32 => index_section
                         .cast_ref_u32()
                         .iter()
                         .map(|i| *i as usize)
                         .collect(),
-                    EncodingType::I64 => section_stack
-                        .pop()
-                        .unwrap()
+                    EncodingType::I64 => index_section
                         .cast_ref_i64()
                         .iter()
                         .map(|i| *i as usize)
@@ -747,7 +746,11 @@ fn decode<'a>(codec: &Codec, sections: &[&'a dyn Data<'a>]) -> BoxedData<'a> {
                         unsafe { str::from_utf8_unchecked(&dict_data[offset..(offset + len)]) };
                     output.push(string);
                 }
-                Box::new(output) as BoxedData
+                let mut output = Box::new(output) as BoxedData;
+                match index_null_map {
+                    Some(present) => output.make_nullable(&present),
+                    None => output,
+                }
             }
             CodecOp::LZ4(encoding_type, count) => match encoding_type {
                 EncodingType::U8 => {
